@@ -365,7 +365,12 @@ class Source(object):
     @cached_property
     def tree(self):
         # type: () -> AST
-        return parse(self.source, self.filename)
+        try:
+            return parse(self.source, self.filename)
+        except ValueError as e:
+            # text CPython refuses before parsing (lone surrogates are not
+            # encodable): for callers this is a source that does not parse
+            raise SyntaxError(str(e))
 
     @cached_property
     def lines(self):
